@@ -152,7 +152,9 @@ def gen_program(rng, D, maxlen):
             if R != 1 and rng.integers(0, 2):
                 continue
             ak = str(rng.choice(build.APPROX_KINDS))
-            if ak in build.HET_KINDS and R != 1:
+            if ak in build.HET_KINDS and (R != 1 or len(ops) != 1):
+                # exp / cosh links overflow float64 once the variance of w'x gets large: a
+                # heteroscedastic step is only taken directly after a start of moderate scale
                 continue
             which = str(rng.choice(("marginal", "joint", "posterior", "condition_on_x")))
             Dy = int(rng.integers(1, 3))
@@ -265,7 +267,12 @@ def execute(ops, seed_key, schedule, qrng, rec, info, scale=None):
         uf_override = {"C": True, "D": False}.get(schedule)
         kind = op[0]
         if kind == "start":
-            cur, t0 = build.mk_measure(op[1], rng, op[2], op[3], kappa=float(rng.choice(gen.KAPPAS[:4])))
+            if any(o[0] == "approx" and o[1] in build.HET_KINDS for o in ops):
+                with gen.calm():
+                    cur, t0 = build.mk_measure(op[1], rng, op[2], op[3], kappa=10.0, scale=0.5)
+            else:
+                cur, t0 = build.mk_measure(op[1], rng, op[2], op[3],
+                                           kappa=float(rng.choice(gen.KAPPAS[:4])))
             if traced:
                 if op[1].endswith("pdf"):
                     cur = type(cur)(Sigma=J(t0.Sigma), mu=J(t0.mu) * scale)
